@@ -452,6 +452,24 @@ func (f *Footer) initChildRefs() {
 	}
 }
 
+// segStackWithChildren returns a segmentStack of the footer's loaded
+// segments that, unlike footer.ss, also (recursively) carries the
+// stacks of the footer's child collections.
+func (f *Footer) segStackWithChildren() *segmentStack {
+	rv := &segmentStack{incarNum: f.incarNum}
+	if f.ss != nil {
+		rv.options = f.ss.options
+		rv.a = f.ss.a
+	}
+	for cName, childFooter := range f.ChildFooters {
+		if rv.childSegStacks == nil {
+			rv.childSegStacks = make(map[string]*segmentStack)
+		}
+		rv.childSegStacks[cName] = childFooter.segStackWithChildren()
+	}
+	return rv
+}
+
 // hasDroppedChildren returns true when this footer (recursively) holds
 // a child collection that does not feature in the given segmentStack
 // anymore, or features there as a newer incarnation, which means the
